@@ -21,6 +21,11 @@ claim "never an unrelated internal exception" is FALSE for the code: see `format
 namespace Fsic.C13
 open Fsic.Lx
 
+/-- The alternation order of `term_re` that `matchAtK` follows, reflected from the compiled pattern on every run:
+    reordering the alternatives in the source breaks this obligation before any test runs. -/
+theorem term_re_group_order : Fsic.Generated.termGroups =
+    ["_VERBATIM", "_INVALID", "_KEYWORD", "_FUNCTION", "_PARAMETER", "_ERROR", "_VARIABLE", "INDEX"] := rfl
+
 /-! ## Totality: consumption and spans -/
 
 /-- Every alternative of `term_re` consumes at least one character and no more than there are. -/
@@ -71,35 +76,6 @@ theorem scanTerms_spans (s : List Char) : SpansFrom 0 s.length (scanTerms s) := 
   simpa [scanTerms] using this
 
 /-! ## Statement splitting -/
-
-theorem finishLine_emit (eq e : List Char) (h : finishLine eq = .emit e) :
-    e = eq ∧ eqSearch eq = true ∧ strip eq ≠ [] := by
-  unfold finishLine completeStmt at h
-  split at h
-  · cases h
-  · rename_i e' hc
-    split at hc
-    · cases hc
-    · rename_i hs
-      split at hc
-      · rename_i hq
-        simp at hc; simp at h; subst hc; subst h
-        exact ⟨rfl, hq, by simpa using hs⟩
-      · split at hc <;> cases hc
-  · cases h
-
-theorem lineStep_emit (st : SplitState) (raw e : List Char) (h : lineStep st raw = .emit e) :
-    eqSearch e = true ∧ strip e ≠ [] := by
-  unfold lineStep lineStepS at h
-  split at h
-  · cases h
-  · unfold countLine at h
-    split at h
-    · cases h
-    · split at h
-      · have := finishLine_emit _ e h
-        rw [this.1]; exact ⟨this.2.1, this.2.2⟩
-      · cases h
 
 /-- Every statement the splitter yields is non-blank and matched by `equation_re` — nothing else is yielded. -/
 theorem split_yields_checked : ∀ (l : List (List Char)) (st : SplitState),
@@ -185,19 +161,6 @@ theorem unpack_fails_without_equals :
 
 /-! ## Error classes -/
 
-theorem termsOf_length : ∀ (ms : List RawMatch) (ts : List Term), termsOf ms = some ts → ts.length = ms.length
-  | [], ts, h => by simp [termsOf] at h; subst h; rfl
-  | m :: ms, ts, h => by
-    unfold termsOf at h
-    split at h
-    · rename_i ix _
-      cases ht : termsOf ms with
-      | none => rw [ht] at h; simp at h
-      | some ts' =>
-        rw [ht] at h; simp at h; subst h
-        simp [termsOf_length ms ts' ht]
-    · cases h
-
 /-- Where the model's errors come from: everything is a ParserError except the two internal failures, each with
     its exact cause. -/
 theorem parseBody_errors (s : List Char) (e : PErr) (h : parseBody s = .err e) :
@@ -229,24 +192,6 @@ theorem parseBody_errors (s : List Char) (e : PErr) (h : parseBody s = .err e) :
           simp at h
           exact Or.inr (Or.inr ⟨h.symm, lt, rt, he, hf⟩)
         · cases h
-
-theorem equationTerms_ok (s : List Char) (lt rt : List Term) (h : equationTerms s = .ok (lt, rt)) :
-    ∃ l r, splitAtEq s = some (l, r) ∧ lt.length = (scanTerms l).length ∧ rt.length = (scanTerms r).length := by
-  unfold equationTerms at h
-  split at h
-  · cases h
-  · rename_i l r hs
-    split at h
-    · cases h
-    · rename_i lt' hl
-      split at h
-      · cases h
-      · rename_i rt' hr
-        split at h
-        · cases h
-        · simp at h
-          obtain ⟨rfl, rfl⟩ := h
-          exact ⟨l, r, hs, termsOf_length _ _ hl, termsOf_length _ _ hr⟩
 
 /-- The number of terms found on the two sides of the first `=` equals the number of matches in the whole
     statement (no match straddles the `=`). -/
